@@ -1,6 +1,6 @@
 """C06 -- rule-breaking documents are rejected with the error belonging to the rule.
 
-GenFault.tla injects exactly one rule violation (14 kinds) into a well-formed generated document,
+GenFault.tla injects exactly one rule violation (16 kinds) into a well-formed generated document,
 at a seed-dependent position and in a seed-dependent spelling; TLC checks at design level that the
 operational parser model answers with the rule's error class (Ruled).  Every fault document is
 printed in several surface forms and parsed by /repo; TLC compares the observed outcome (an
@@ -13,7 +13,7 @@ from . import core, docs, doccheck
 
 
 def main(argv: List[str]) -> int:
-    rep = core.Report('C06', 'TLC-generated single-fault documents (GenFault.tla, 14 fault kinds x position x spelling) parsed by '
+    rep = core.Report('C06', 'TLC-generated single-fault documents (GenFault.tla, 16 fault kinds x position x spelling) parsed by '
                              '/repo; outcome class compared by TLC with Doc!ParseDoc; Ruled checked at design level')
     rep.rule = ('case = (base document seed, fault kind, surface form); distinct by that triple; every case is '
                 'non-trivial (exactly one injected violation)')
@@ -37,7 +37,7 @@ def main(argv: List[str]) -> int:
     rep.notes['fault_documents'] = len(fs)
     rep.notes['per_fault_kind'] = kinds
     want = ['DupTable', 'DupAlias', 'AliasIsKey', 'DupEnum', 'DupGroup', 'DupGroupItem', 'DupRef', 'DupRefInline', 'DupInlineTwice',
-            'EmptyTable', 'RefNoTable', 'RefNoColumn', 'IdxNoColumn', 'GroupNoTable']
+            'EmptyTable', 'RefNoTableAtAll', 'GroupNoTableAtAll', 'RefNoTable', 'RefNoColumn', 'IdxNoColumn', 'GroupNoTable']
     if sorted(kinds) != sorted(want):
         raise core.Machinery('C06: fault kinds judged %s, expected %s' % (sorted(kinds), sorted(want)))
     for tid in list(items)[:3]:
